@@ -48,7 +48,7 @@ def run(ctx):
     run.rule("C08.R3", "position tuples are written in the order the consumer "
              "unpacks (borrowed from C07.R2)", floor=4)
     run.rule("C08.R4", "placeholder positions satisfy the fix-up tests",
-             floor=2)
+             floor=1)   # two today; merging them into a helper leaves one
     run.rule("C08.R5", "DataConversionError(caught exception, converted "
              "value, position) at every conversion wrapper", floor=4)
     run.rule("C08.R6", "handlers around section end / key-value / "
